@@ -485,14 +485,30 @@ func (m *LexModel) canonicalize(st *State, name string) {
 			needs = true
 		}
 	}
+	// the name may also still stand for the rune under the cursor or the one after it (a lookahead taken on every
+	// iteration, before the rune it saw is consumed): what the path knows about that rune stays known
+	class := st.Mon["a:"+name]
+	if class == "cur" || class == "next" {
+		needs = true
+	} else {
+		class = ""
+	}
+	for mk := range st.Mon {
+		if strings.HasPrefix(mk, "a:K") {
+			used[mk[2:]] = true
+		}
+	}
 	if !needs {
 		return
 	}
 	k := ""
-	for i := 0; i < 6 && k == ""; i++ {
+	for i := 0; i < 8 && k == ""; i++ {
 		if c := fmt.Sprintf("K%d~", i); !used[c] {
 			k = c
 		}
+	}
+	if k == "" {
+		return
 	}
 	for fk := range st.Facts {
 		if strings.Contains(fk, k) {
@@ -510,6 +526,10 @@ func (m *LexModel) canonicalize(st *State, name string) {
 		}
 	}
 	st.Mon["a:"+k] = "consumed"
+	if class != "" {
+		st.Mon["a:"+k] = class
+		delete(st.Mon, "a:"+name)
+	}
 }
 
 func (m *LexModel) Call(mc *Machine, st *State, call ssa.CallInstruction, callee *ssa.Function, args []AV) ([]Outcome, bool) {
@@ -568,6 +588,7 @@ func (m *LexModel) Call(mc *Machine, st *State, call ssa.CallInstruction, callee
 		if st.Mon["end"] == "" {
 			opts = []string{"T", "F"}
 		}
+		m.canonicalize(st, "pk"+valName)
 		for _, o := range opts {
 			o := o
 			name := "pk" + valName
@@ -591,6 +612,7 @@ func (m *LexModel) Call(mc *Machine, st *State, call ssa.CallInstruction, callee
 		if st.Mon["nend"] == "" {
 			opts = []string{"T", "F"}
 		}
+		m.canonicalize(st, "pn"+valName)
 		for _, o := range opts {
 			o := o
 			name := "pn" + valName
